@@ -253,6 +253,22 @@ def main():
         rp = os.path.join(rdir, "%s-%s.json" % (v["prop"], key))
         json.dump({"property_id": cid, "prop": v["prop"], "case": v["case"], "error": v["error"], "via": v["via"], "seed": seed, "tier": tier}, open(rp, "w"), ensure_ascii=False, indent=1)
         viol_lines.append((rp, v))
+    # ---- seconds-long replay tier: committed regression cases of repaired findings, fed straight to the oracle
+    regress = sorted(glob.glob(os.path.join(ROOT, "regressions", cid, "*.json")))
+    regress_ran = 0
+    for rf in regress:
+        e = goenv()
+        e.update({"VERIF_REPLAY": rf, "VERIF_KNOWN": KNOWN, "VERIF_ROOT": ROOT})
+        try:
+            r = subprocess.run([binp], cwd=os.path.join(ROOT, "checks", cid.lower()), env=e, stdout=subprocess.PIPE, stderr=subprocess.STDOUT, text=True, timeout=300)
+        except subprocess.TimeoutExpired:
+            infra.append("regression replay %s timed out" % rf)
+            continue
+        regress_ran += 1
+        if r.returncode == 1:
+            viol_lines.append((rf, {"prop": json.load(open(rf))["prop"], "case": json.load(open(rf))["case"], "error": r.stdout[-600:], "via": "regression replay"}))
+        elif r.returncode != 0:
+            infra.append("regression replay %s exited %d: %s" % (rf, r.returncode, r.stdout[-300:]))
     known_seen = {}
     for name in order:
         for k, n in subs[name]["known_excluded"].items():
@@ -279,6 +295,7 @@ def main():
         "known_findings_seen": known_seen,
         "shards": nsh,
         "native_fuzz": fuzz_report,
+        "regression_replays": regress_ran,
         "notes": notes,
         "inconclusive": infra,
     }
